@@ -50,7 +50,20 @@ Definition get_address (d : list (Z * Z)) (number : Z) (by_id : bool) : Z :=
   if by_id then match dict_get d number with Some a => a | None => -2 end
   else match dict_find_val d number with Some k => k | None => -2 end.
 
-(* binary persistence: [id, 0, lo, hi] per entry; loading assigns by id *)
+(* _dhcp()'s candidate scan, i = MESH_MAX_CHILDREN(+1) .. 1: the first child slot of [via] that is not the
+   unassigned address and is not held by another ID *)
+Fixpoint dhcp_pick (d : list (Z * Z)) (rid : Z) (i : nat) (via shift_val : Z) : option Z :=
+  match i with
+  | O => None
+  | S i' =>
+    let new_addr := Z.lor via (Z.shiftl (Z.of_nat i) shift_val) in
+    if new_addr =? 2340 (* NETWORK_DEFAULT_ADDR 0o4444 *) then dhcp_pick d rid i' via shift_val
+    else if existsb (fun kv => (snd kv =? new_addr) && negb (fst kv =? rid)) d
+    then dhcp_pick d rid i' via shift_val
+    else Some new_addr
+  end.
+
+(* binary persistence: [id, 0, lo, hi] per entry; loading searches by address, like JSON (fix C16) *)
 Definition save_bin (d : list (Z * Z)) : result (list N) :=
   (fix go (d : list (Z * Z)) : result (list N) :=
      match d with
@@ -68,7 +81,7 @@ Fixpoint load_bin (fuel : nat) (buf : list N) (d : list (Z * Z)) : list (Z * Z) 
   | O => d
   | S k =>
     match buf with
-    | i :: _ :: lo :: hi :: t => load_bin k t (set_address d (Z.of_N i) (Z.of_N lo + 256 * Z.of_N hi) false)
+    | i :: _ :: lo :: hi :: t => load_bin k t (set_address d (Z.of_N i) (Z.of_N lo + 256 * Z.of_N hi) true)
     | _ => d
     end
   end.
@@ -262,17 +275,12 @@ Section MeshModel.
 
   (* ---- master ---- *)
   (* _dhcp(): candidate loop i = MESH_MAX_CHILDREN(+1) .. 1 *)
-  Fixpoint dhcp_loop (i : nat) (via shift_val : Z) : NM unit :=
-    match i with
-    | O => nret tt
-    | S i' =>
-      n <- nget ;;
-      let h := fb_hdr n in
-      let new_addr := Z.lor via (Z.shiftl (Z.of_nat i) shift_val) in
-      if new_addr =? NET_DEFAULT then dhcp_loop i' via shift_val
-      else if existsb (fun kv => (snd kv =? new_addr) && negb (fst kv =? reserved h)) (n_dhcp n)
-      then dhcp_loop i' via shift_val
-      else
+  Definition dhcp_loop (i : nat) (via shift_val : Z) : NM unit :=
+    n <- nget ;;
+    let h := fb_hdr n in
+    match dhcp_pick (n_dhcp n) (reserved h) i via shift_val with
+    | None => nret tt
+    | Some new_addr =>
         nmod (fun n => set_mesh n (n_id n) (set_address (n_dhcp n) (reserved h) new_addr false) (n_do_dhcp n)) ;;;
         (if (0 <=? new_addr) && (new_addr <=? 65535) then nret tt else nraise StructError) ;;;
         nmod (fun n => let h := fb_hdr n in
